@@ -135,8 +135,11 @@ def random_streams(rng: random.Random) -> tuple[list[list[dict]], int, dict]:
     streams = []
     seen: dict[str, int] = {}
     n_dups = 0
-    for _ in range(runs):
+    for run in range(runs):
         ln = rng.randint(1, 40 // runs)
+        # time placement of a run: the same period as the first delivery, or a later period
+        # that does not overlap it (a later export that re-delivers some earlier span ids)
+        epoch = 0 if run == 0 or rng.random() < 0.5 else run * 100_000
         pool = list(ids)
         rng.shuffle(pool)
         stream = []
@@ -152,10 +155,10 @@ def random_streams(rng: random.Random) -> tuple[list[list[dict]], int, dict]:
                 if rng.random() < 0.5:
                     # a re-sent span id may differ in everything else: payload, parent, and
                     # the trace / workflow it claims to belong to
-                    stream.append(_rec(eid, rng.choice([None] + ids), f"dup{k}", 7 * t,
+                    stream.append(_rec(eid, rng.choice([None] + ids), f"dup{k}", epoch + 7 * t,
                                        job=rng.choice([None, None, "other", "x"])))
                     continue
-            stream.append(_rec(eid, parents[eid], "T" + eid, 0))
+            stream.append(_rec(eid, parents[eid], "T" + eid, epoch))
         streams.append(stream)
     total = sum(len(s) for s in streams)
     b = rng.choice([1, 2, 3, rng.randint(1, total + 1), total, total + 1, 1000])
@@ -187,7 +190,15 @@ def large_streams(rng: random.Random) -> tuple[list[list[dict]], int, dict]:
     runs = 1 if rng.random() < 0.7 else 2
     if runs == 2:
         cut = rng.randint(1, len(stream) - 1)
-        streams = [stream[:cut], stream[cut:] + [dict(rng.choice(stream[:cut]))]]
+        later = rng.random() < 0.5
+        second = [dict(r, start_timestamp=r["start_timestamp"] + 100_000,
+                       end_timestamp=r["end_timestamp"] + 100_000) if later else r
+                  for r in stream[cut:]]
+        redelivered = dict(rng.choice(stream[:cut]))
+        if later and rng.random() < 0.5:
+            redelivered.update(start_timestamp=redelivered["start_timestamp"] + 100_000,
+                               end_timestamp=redelivered["end_timestamp"] + 100_000)
+        streams = [stream[:cut], second + [redelivered]]
     else:
         streams = [stream]
     total = len(stream)
